@@ -1,5 +1,5 @@
 (* Property C16 - print-then-parse round trip: precedence, grouping, layout and literal fidelity. RF (AtomsSel.v) is the rendering relation: every text a printer may emit for a tree; c16_final_parse says the parser (declarative semantics of the table regenerated from grammar.go, through engine completeness) reads every such text back as the tree. Statements only. *)
-From Coq Require Import List String ZArith NArith Bool. From Bexpr Require Import Base Strconv Ast Unicode Peg Typing Actions GoGrammar Sem Calc Calc2 Lex Lex2 Lex3 Skel Top C10 C16 Glue Spell Ptr StrLit Values Num Sels Coll Bind2 AtomsIn AtomsOp AtomsNotIn AtomsSel Fidelity Fid4 Univ Eval EndToEnd. Import ListNotations.
+From Coq Require Import List String ZArith NArith Bool. From Bexpr Require Import Base Strconv Ast Unicode Peg Typing Actions GoGrammar Sem Calc Calc2 Lex Lex2 Lex3 Skel Top C10 C16 Glue Spell Ptr StrLit Values Num NumLit Sels Coll Bind2 AtomsIn AtomsOp AtomsNotIn AtomsSel Fidelity Fid4 Univ Eval EndToEnd. Import ListNotations.
 
 Theorem c16_quoted_literal :
   forall s : string, unquote (quote_double s) = Some s.
@@ -106,3 +106,13 @@ Theorem number_before_brace :
 Proof. exact Num.number_before_brace. Qed.
 Print Assumptions number_before_brace.
 
+
+(* bare number literals - optional minus sign, zero or a non-zero digit and digits, optional fraction - denote their own text,
+   in every continuation an atom admits; NumLit.of_number packs this as one of the literal styles (vlit) that the atoms of
+   c16_final_parse range over *)
+Theorem value_number_spec :
+  forall sg ip fp k : list cell,
+  sign_part sg ->
+  int_part ip -> frac_part fp -> astop k -> all_valid k -> spec (PRef "Value") ((sg ++ ip ++ fp) ++ k) (VMV (cells_str (sg ++ ip ++ fp))) k.
+Proof. exact NumLit.value_number_spec. Qed.
+Print Assumptions value_number_spec.
